@@ -8,6 +8,7 @@ import (
 	"math/big"
 	"strings"
 
+	saodidutil "github.com/SaoNetwork/sao-did/util"
 	"github.com/SaoNetwork/sao/app"
 	didkeeper "github.com/SaoNetwork/sao/x/did/keeper"
 	didtypes "github.com/SaoNetwork/sao/x/did/types"
@@ -104,6 +105,17 @@ func NewWorld() *World {
 		cfg.SetBech32PrefixForConsensusNode(app.AccountAddressPrefix+"valcons", app.AccountAddressPrefix+"valconspub")
 		configured = true
 	}
+	// signature library oracles (the library files are overlay copies during replay builds)
+	var lastDid string
+	saodidutil.ReplayParseOK = func(did string) bool { return true }
+	saodidutil.ReplaySigOK = func(did string) bool {
+		ok := sym.NextSigOK(did)
+		if ok {
+			lastDid = did
+		}
+		return ok
+	}
+	saodidutil.ReplayKid = func() (string, error) { return lastDid + "#replay", nil }
 	enc := cosmoscmd.MakeEncodingConfig(app.ModuleBasics)
 	a := app.New(log.NewNopLogger(), dbm.NewMemDB(), nil, true, map[int64]bool{}, "", 0, enc, simapp.EmptyAppOptions{}).(*app.App)
 
